@@ -563,7 +563,11 @@ func (f *Func) boundErrorIsReturned(call *ast.CallExpr) bool {
 // nil tests (a defensive `x != nil` may come and go without changing behaviour). It is the size of the gate in front
 // of v: a gate that grows by a test on some unrelated flag has been narrowed. Exit guards (conditions whose other outcome
 // leaves without rejoining what follows v) are not counted.
-func (g *Graph) semanticLeaves(v int) (int, string) {
+func (g *Graph) semanticLeaves(v int) (int, string) { return g.gateLeaves(v, false) }
+
+// gateLeaves is semanticLeaves with the choice of counting nil tests too (for gates in front of which no defensive nil
+// test belongs).
+func (g *Graph) gateLeaves(v int, countNil bool) (int, string) {
 	n := 0
 	var parts []string
 	future := g.ReachableFrom(v)
@@ -606,10 +610,10 @@ func (g *Graph) semanticLeaves(v int) (int, string) {
 			if isCompound(a.E) {
 				continue
 			}
-			if _, _, isNil := NilTest(a.E); isNil {
+			if _, _, isNil := NilTest(a.E); isNil && !countNil {
 				continue
 			}
-			if inner, neg := stripNot(a.E); neg {
+			if inner, neg := stripNot(a.E); neg && !countNil {
 				if _, _, isNil := NilTest(inner); isNil {
 					continue
 				}
